@@ -153,9 +153,13 @@ class C09(PropBase):
         out = []
         for _ in range(nu):
             items = ls.universe(rng, v, kind=rng.choice(['full', 'leaf', 'full']), size=rng.randint(6, 20))
+            plain_items = all(e and ':' not in e and '?' not in e for e in items)
             for _ in range(ns):
                 q = self.gt_search(rng, v, items)
                 out.append(Case('find_list', [items, q], 'find', {}))
+                if plain_items and rng.random() < 0.3:
+                    # the same search answered as Sid objects (as_sid=True, the default of find): the same Sids in the same order
+                    out.append(Case('find_list_sids', [items, q], 'find_sids', {'q': q}))
         # two '>' with '*' between them: still ONE answer per combination of the segments before the FIRST '>' - the entry whose
         # remaining segments are greatest - however many values the '*' levels take below it
         from props.c01 import natural
@@ -267,6 +271,16 @@ class C09(PropBase):
             if c.op == 'unfold':
                 unfold[c.args[0]] = o
         fails = self.fs_oracle(cases, impl_out, ctx, unfold)
+        prev = None
+        for c, o in zip(cases, impl_out):
+            if c.stream == 'find_sids' and prev is not None and prev[0].args[1] == c.args[1] and prev[0].args[0] == c.args[0]:
+                po = prev[1]
+                if po[0] == 'ok' and o[0] == 'ok' and [x[0] for x in o[1]] != po[1]:
+                    fails.append((c, o, "find(%r, as_sid=True) gives %r, as_sid=False gives %r (same entries)" % (c.args[1], [x[0] for x in o[1]], po[1])))
+                elif (po[0] == 'ok') != (o[0] == 'ok'):
+                    fails.append((c, o, "find(%r) with as_sid=True / False do not fail alike: %r / %r" % (c.args[1], o[:2], po[:2])))
+            if c.op == 'find_list' and c.stream == 'find':
+                prev = (c, o)
         for c, o in zip(cases, impl_out):
             if c.op != 'find_list' or c.stream != 'find':
                 continue
